@@ -421,6 +421,9 @@ func runCoop(t *rapid.T, w *rep.Worker, maxClients int) {
 	w.State(fmt.Sprintf("%s|warm=%d|switches>0=%v", typ.Runtime, warm, sched.Switches > 0))
 	if sched.Switches > 0 && judged > 1 {
 		w.Note("%d clients, %d decisions, %d switches, schedule hash %x", nc, sched.Decisions, sched.Switches, sched.Hash())
+		if w.WantDetail() {
+			w.Note("schedule trace: %s", sched.TraceString())
+		}
 		w.EndNontrivial()
 	}
 	if sig := w.Pending(); sig != "" {
